@@ -130,24 +130,27 @@ inline Failure compareExtraction(const std::string& text, const m6::Scan& sc, co
   std::vector<RefView> L;
   std::vector<m6::Occ> occs;
   int prevFinish = 0;
+  const auto offs = m6::cpOffsets(text);
   for (size_t i = 0; i < found.size(); ++i) {
     const auto v = view(found[i]);
-    const std::string at = "reference " + std::to_string(i) + " " + rng(v.start, v.finish) + " " + esc(v.spelled);
-    GLUE_CHECK(v.type != 0, "reported-invalid", at + ": invalid reference reported");
-    GLUE_CHECK(0 <= v.start && v.start < v.finish && v.finish <= sc.textCps, "range-in-text", at + " outside the text of " + std::to_string(sc.textCps) + " code points");
-    GLUE_CHECK(v.start >= prevFinish, "ranges-ordered-disjoint", at + " starts before the previous reference ends at " + std::to_string(prevFinish));
+    const auto at = [&] { return "reference " + std::to_string(i) + " " + rng(v.start, v.finish) + " " + esc(v.spelled); };
+    GLUE_CHECK(v.type != 0, "reported-invalid", at() + ": invalid reference reported");
+    GLUE_CHECK(0 <= v.start && v.start < v.finish && v.finish <= sc.textCps, "range-in-text", at() + " outside the text of " + std::to_string(sc.textCps) + " code points");
+    GLUE_CHECK(v.start >= prevFinish, "ranges-ordered-disjoint", at() + " starts before the previous reference ends at " + std::to_string(prevFinish));
     prevFinish = v.finish;
-    const auto occ = m6::candidateAt(text, v.start, v.finish);
-    GLUE_CHECK(occ.has_value(), "reported-not-an-occurrence", at + ": the code points " + rng(v.start, v.finish) + " are '" + esc(m6::cpSubstr(text, v.start, v.finish)) + "', not a @{...} occurrence");
-    GLUE_CHECK(occ->p.kind != m6::Kind::Malformed, "reported-malformed", at + ": '" + esc(occ->spelling) + "' is malformed (" + occ->p.why + ")");
+    const auto occ = m6::candidateAt(text, offs, v.start, v.finish);
+    GLUE_CHECK(occ.has_value(), "reported-not-an-occurrence", at() + ": the code points " + rng(v.start, v.finish) + " are '" + esc(m6::cpSubstr(text, v.start, v.finish)) + "', not a @{...} occurrence");
+    GLUE_CHECK(occ->p.kind != m6::Kind::Malformed, "reported-malformed", at() + ": '" + esc(occ->spelling) + "' is malformed (" + occ->p.why + ")");
     if (occ->p.kind == m6::Kind::Unspecified) {
       if (occ->p.offsetBeyondInt16)
         GLUE_CHECK(v.type == 2 && v.offset == occ->p.offset, "offset-not-representable", "'" + esc(occ->spelling) + "' reported as " + esc(v.spelled) + ": the written offset is neither rejected nor kept");
     } else {
       const auto d = sameAsModel(v, occ->p);
-      GLUE_CHECK(d.empty(), "reference-content", at + " from '" + esc(occ->spelling) + "': " + d);
-      const auto sp = m6::matchSegs(v.spelled, {m6::refSeg(occ->p)});
-      GLUE_CHECK(sp.empty(), "canonical-spelling", at + ": ToString is not the canonical spelling '" + esc(occ->p.canonical()) + "': " + sp);
+      GLUE_CHECK(d.empty(), "reference-content", at() + " from '" + esc(occ->spelling) + "': " + d);
+      if (v.spelled != occ->p.canonical()) {  // any order of the tags is accepted
+        const auto sp = m6::matchSegs(v.spelled, {m6::refSeg(occ->p)});
+        GLUE_CHECK(sp.empty(), "canonical-spelling", at() + ": ToString is not the canonical spelling '" + esc(occ->p.canonical()) + "': " + sp);
+      }
     }
     L.push_back(v);
     occs.push_back(*occ);
@@ -178,14 +181,17 @@ inline Failure compareExtraction(const std::string& text, const m6::Scan& sc, co
   return {};
 }
 
-// Reference::Parse / ToString on every closed top-level candidate of the text
-inline Failure compareParse(const m6::Scan& sc) {
+// Reference::Parse / ToString on every closed top-level candidate of the text.
+// canonicalOnly: only re-parse the canonical spelling of well-formed candidates that are not written canonically (for callers
+// that already compared ExtractAll, which hands exactly these candidate strings to Parse).
+inline Failure compareParse(const m6::Scan& sc, bool canonicalOnly = false) {
   for (const auto& o : sc.top) {
     if (!o.closed || o.p.kind == m6::Kind::Unspecified) continue;
+    if (canonicalOnly && (!o.p.wellFormed() || o.p.canonical() == o.spelling)) continue;
     const auto r = ccl::lang::Reference::Parse(o.spelling);
     const auto v = view(r);
     GLUE_CHECK(r.IsValid() == o.p.wellFormed(), "parse-validity",
-               "Parse('" + esc(o.spelling) + "') valid=" + (r.IsValid() ? "true" : "false") + " want " + (o.p.wellFormed() ? "well-formed" : "malformed: " + o.p.why));
+               "Parse('" + esc(o.spelling) + "') valid=" + (r.IsValid() ? "true" : "false") + " want " + (o.p.wellFormed() ? std::string("well-formed") : std::string("malformed: ") + o.p.why));
     if (!o.p.wellFormed()) continue;
     const auto d = sameAsModel(v, o.p);
     GLUE_CHECK(d.empty(), "parse-content", "Parse('" + esc(o.spelling) + "'): " + d);
@@ -203,25 +209,25 @@ inline Failure compareParse(const m6::Scan& sc) {
 
 // recorded ranges lie in the (resolved) text, are ordered and disjoint, and delimit the recorded resolution
 inline Failure checkStructure(const std::string& resolved, const std::vector<ccl::lang::Reference>& refs, const std::string& what) {
-  const auto cps = m6::cpSplit(resolved);
-  const int n = static_cast<int>(cps.size());
+  const auto offs = m6::cpOffsets(resolved);
+  const int n = static_cast<int>(offs.size()) - 1;
   int prev = 0;
   for (size_t i = 0; i < refs.size(); ++i) {
     const auto& p = refs[i].position;
-    const std::string at = what + " reference " + std::to_string(i) + " " + rng(p.start, p.finish);
-    GLUE_CHECK(0 <= p.start && p.start <= p.finish && p.finish <= n, "range-in-text", at + " outside the resolved text of " + std::to_string(n) + " code points");
-    GLUE_CHECK(p.start >= prev, "ranges-ordered-disjoint", at + " starts before the previous one ends at " + std::to_string(prev));
-    std::string seen;
-    for (int k = p.start; k < p.finish; ++k) seen += cps[static_cast<size_t>(k)];
-    GLUE_CHECK(seen == refs[i].resolvedText, "range-delimits", at + " shows '" + esc(seen) + "' but the reference resolved to '" + esc(refs[i].resolvedText) + "'");
+    const auto at = [&] { return what + " reference " + std::to_string(i) + " " + rng(p.start, p.finish); };
+    GLUE_CHECK(0 <= p.start && p.start <= p.finish && p.finish <= n, "range-in-text", at() + " outside the resolved text of " + std::to_string(n) + " code points");
+    GLUE_CHECK(p.start >= prev, "ranges-ordered-disjoint", at() + " starts before the previous one ends at " + std::to_string(prev));
+    const size_t b0 = offs[static_cast<size_t>(p.start)], b1 = offs[static_cast<size_t>(p.finish)];
+    GLUE_CHECK(resolved.compare(b0, b1 - b0, refs[i].resolvedText) == 0, "range-delimits",
+               at() + " shows '" + esc(resolved.substr(b0, b1 - b0)) + "' but the reference resolved to '" + esc(refs[i].resolvedText) + "'");
     prev = p.finish;
   }
   return {};
 }
 
 // ------------------------------------------------------------------------------------------------ known findings of C17
-inline bool legacyEmptyLastShape(const std::string& cand) {
-  if (cand.size() <= 3) return false;
+inline bool legacyEmptyLastShape(std::string_view cand) {
+  if (cand.size() <= 3 || cand[cand.size() - 2] != '|') return false;
   const auto f = m6::split(cand.substr(2, cand.size() - 3), '|');
   return (f.size() == 3 || f.size() == 4) && !f[0].empty() && m6::isAlphaC(f[0][0]) && f.back().empty();
 }
